@@ -259,3 +259,114 @@ Proof.
   - intros i Hi. assert (E : nth_error (p_ms s) i = Some MDone) by (apply DN; apply in_or_app; auto).
     split; auto. rewrite <- (inv_len _ _ _ I1). apply nth_error_Some. congruence.
 Qed.
+
+(* ---- the harness's step discipline: order of receipt = order of release ----
+   The correspondence harness lets one member return at a time and only when the process is
+   quiescent (no step other than a member returning is enabled).  Under that discipline the
+   responses reach the caller in the order the members were released: what has been received is
+   always a prefix of the release order, and whenever the process is quiescent again with the
+   caller still in its loop, everything released so far has been received, in that order.  This is
+   the link between the completion order of the decision model (Group/Exec.v) and this process
+   model. *)
+Definition is_ret (s s' : pstate) : Prop :=
+  exists i, nth_error (p_ms s) i = Some MRun /\
+            s' = mkP (set_nth i MSend (p_ms s)) (p_buf s) (p_recvd s) (p_listening s) (p_closed s).
+
+Definition quiescent (cap : nat) (stop : list nat -> bool) (s : pstate) : Prop :=
+  forall s', pstep cap stop s s' -> is_ret s s'.
+
+Inductive hrun (cap : nat) (stop : list nat -> bool) (n : nat) : list nat -> pstate -> Prop :=
+| hr_init : hrun cap stop n [] (proc_init n)
+| hr_release : forall l s i, hrun cap stop n l s -> quiescent cap stop s ->
+    nth_error (p_ms s) i = Some MRun ->
+    hrun cap stop n (l ++ [i]) (mkP (set_nth i MSend (p_ms s)) (p_buf s) (p_recvd s) (p_listening s) (p_closed s))
+| hr_step : forall l s s', hrun cap stop n l s -> pstep cap stop s s' -> ~ is_ret s s' ->
+    hrun cap stop n l s'.
+
+Lemma q_no_sendbuf : forall cap stop s a, quiescent cap stop s ->
+  nth_error (p_ms s) a = Some MSend -> List.length (p_buf s) < cap -> False.
+Proof.
+  intros cap stop s a Q Ha L. destruct (Q _ (PSendBuf cap stop s a Ha L)) as [i [_ E]].
+  injection E as _ E. apply (f_equal (@List.length nat)) in E. rewrite app_length in E. simpl in E. lia.
+Qed.
+
+Lemma q_no_direct : forall cap stop s a, quiescent cap stop s ->
+  nth_error (p_ms s) a = Some MSend -> p_buf s = [] -> p_listening s = true -> False.
+Proof.
+  intros cap stop s a Q Ha B L. destruct (Q _ (PSendDirect cap stop s a Ha B L)) as [i [_ E]].
+  injection E as _ _ E. apply (f_equal (@List.length nat)) in E. rewrite app_length in E. simpl in E. lia.
+Qed.
+
+Lemma q_no_recv : forall cap stop s j rest, quiescent cap stop s ->
+  p_buf s = j :: rest -> p_listening s = true -> False.
+Proof.
+  intros cap stop s j rest Q B L. destruct (Q _ (PRecv cap stop s j rest B L)) as [i [_ E]].
+  injection E as _ E. rewrite B in E. apply (f_equal (@List.length nat)) in E. simpl in E. lia.
+Qed.
+
+Definition hinv (cap : nat) (l : list nat) (s : pstate) : Prop :=
+  exists pend, l = p_recvd s ++ p_buf s ++ pend /\
+    (forall i, nth_error (p_ms s) i = Some MSend <-> In i pend) /\
+    (List.length pend <= 1 \/ (p_listening s = false /\ cap <= List.length (p_buf s))).
+
+Lemma hrun_inv : forall cap stop n l s, hrun cap stop n l s -> hinv cap l s.
+Proof.
+  intros cap stop n l s H. induction H as [|l s i H IH Q Hi|l s s' H IH St NR].
+  - exists []. simpl. split; auto. split; [|left; lia].
+    intros i. split; [|intros []]. intros E. apply nth_error_In in E. apply repeat_spec in E. discriminate.
+  - destruct IH as [pend [E [M B]]]. exists (pend ++ [i]). simpl. split; [|split].
+    + rewrite E. rewrite <- !app_assoc. reflexivity.
+    + intros j. rewrite nth_error_set_nth. destruct (Nat.eqb_spec j i) as [->|N].
+      * rewrite Hi. split; auto. intros _. apply in_or_app. right. left. auto.
+      * rewrite M. split; intros I; [apply in_or_app; auto|].
+        apply in_app_or in I as [I|[I|[]]]; auto. congruence.
+    + destruct pend as [|a pend]; [left; simpl; lia|right].
+      assert (Ha : nth_error (p_ms s) a = Some MSend) by (apply M; left; auto).
+      split.
+      * destruct (p_listening s) eqn:L; auto. exfalso.
+        destruct (p_buf s) as [|j rest] eqn:Bu.
+        -- apply (q_no_direct cap stop s a Q Ha Bu L).
+        -- apply (q_no_recv cap stop s j rest Q Bu L).
+      * destruct (Nat.le_gt_cases cap (List.length (p_buf s))); auto.
+        exfalso. apply (q_no_sendbuf cap stop s a Q Ha). lia.
+  - destruct IH as [pend [E [M B]]]. inversion St; subst.
+    + exfalso. apply NR. exists i. auto.
+    + (* buffered send *)
+      assert (Ii : In i pend) by (apply M; auto).
+      destruct B as [B|[_ B]]; [|lia].
+      destruct pend as [|a [|b pend]]; simpl in B; try lia; [destruct Ii|].
+      destruct Ii as [->|[]]. exists []. simpl. split; [|split; [|left; lia]].
+      * rewrite app_nil_r. reflexivity.
+      * intros j. rewrite nth_error_set_nth. destruct (Nat.eqb_spec j i) as [->|N].
+        -- rewrite H0. split; [discriminate|intros []].
+        -- split; [|intros []]. intros Hj. apply M in Hj as [->|[]]. congruence.
+    + (* direct hand-off *)
+      assert (Ii : In i pend) by (apply M; auto).
+      destruct B as [B|[B _]]; [|congruence].
+      destruct pend as [|a [|b pend]]; simpl in B; try lia; [destruct Ii|].
+      destruct Ii as [->|[]]. exists []. simpl. split; [|split; [|left; lia]].
+      * rewrite H1 in *. simpl. rewrite app_nil_r. reflexivity.
+      * intros j. rewrite nth_error_set_nth. destruct (Nat.eqb_spec j i) as [->|N].
+        -- rewrite H0. split; [discriminate|intros []].
+        -- split; [|intros []]. intros Hj. apply M in Hj as [->|[]]. congruence.
+    + (* receive from the buffer *)
+      exists pend. simpl. split; [|split; auto].
+      * rewrite H0. rewrite <- app_assoc. reflexivity.
+      * destruct B as [B|[B _]]; [left; auto|congruence].
+    + exists pend. simpl. auto.
+    + exists pend. simpl. split; auto. split; auto.
+      destruct B as [B|[B _]]; [left; auto|congruence].
+Qed.
+
+Theorem release_order_is_receive_order : forall cap stop n l s, hrun cap stop n l s ->
+  (exists rest, l = p_recvd s ++ rest) /\
+  (quiescent cap stop s -> p_listening s = true -> p_recvd s = l).
+Proof.
+  intros cap stop n l s H. destruct (hrun_inv _ _ _ _ _ H) as [pend [E [M B]]]. split.
+  - exists (p_buf s ++ pend). auto.
+  - intros Q L.
+    destruct (p_buf s) as [|j rest] eqn:Bu; [|exfalso; apply (q_no_recv cap stop s j rest Q Bu L)].
+    destruct pend as [|a pend].
+    + rewrite E. simpl. rewrite app_nil_r. reflexivity.
+    + exfalso. apply (q_no_direct cap stop s a Q); auto. apply M. left; auto.
+Qed.
